@@ -143,7 +143,7 @@ ALGS = {
 }
 
 GH_ASSIGNS = ('__CPROVER_object_whole(g_H), __CPROVER_object_whole(g_v), g_nblk, g_seen, g_T1, g_T2, g_xk, g_s, g_ti, g_Mj, '
-              'g_r, g_r2, g_load_ok, g_sched_ok')
+              'g_r, g_r2, g_load_ok, g_sched_ok, g_w0, g_wa, g_wb, g_wc, g_wd')
 
 
 def block_rules(name):
@@ -172,8 +172,12 @@ def block_rules(name):
         W = 'extended_fields'
         rules = [
             at_start(block_prefix('block', 5, True)),
+            # schedule word g_t: operands captured when the loop reaches x == g_t (read through the same index expressions as
+            # the code, so that the solver sees shared operands), value per FIPS 180-4 6.1.2 step 1
+            LoopGhost(2, 'if (x == g_t) { g_wa = %s[x - 3]; g_wb = %s[x - 8]; g_wc = %s[x - 14]; g_wd = %s[x - 16]; '
+                         'g_w0 = C10_SHA1_WV(g_wa, g_wb, g_wc, g_wd); }' % (W, W, W, W)),
             # FIPS 180-4 6.1.2 step 3 for t = g_r
-            LoopGhost(3, 'g_T1 = C10_SHA1_T(g_r, g_v[0], g_v[1], g_v[2], g_v[3], g_v[4], %s[g_r]); g_v[4] = g_v[3]; g_v[3] = g_v[2]; '
+            LoopGhost(3, 'g_T1 = C10_SHA1_T(g_r, g_v[0], g_v[1], g_v[2], g_v[3], g_v[4], %s[x]); g_v[4] = g_v[3]; g_v[3] = g_v[2]; '
                          'g_v[2] = C10_SHA_ROTL(g_v[1], 30); g_v[1] = g_v[0]; g_v[0] = g_T1; g_r++;' % W),
             # step 4, and the schedule facts at the ghost indices
             at_end(' '.join('g_H[%d] = g_v[%d] + g_H[%d];' % (i, i, i) for i in range(5)) +
@@ -185,11 +189,12 @@ def block_rules(name):
                '__CPROVER_loop_invariant(g_j < x ==> %s[g_j] == g_Mj)\n'
                '__CPROVER_loop_invariant(g_j >= x ==> %s[g_j] == C10_LE32_AT(block, g_j))\n'
                '__CPROVER_decreases(16 - x)' % (W, W, W),
-            2: '__CPROVER_assigns(x, __CPROVER_object_whole(%s))\n'
+            2: '__CPROVER_assigns(x, __CPROVER_object_whole(%s), g_w0, g_wa, g_wb, g_wc, g_wd)\n'
                '__CPROVER_loop_invariant(16 <= x && x <= 80)\n'
                '__CPROVER_loop_invariant(%s[g_j] == g_Mj)\n'
-               '__CPROVER_loop_invariant(g_t < x ==> %s[g_t] == C10_SHA1_W(%s, g_t))\n'
-               '__CPROVER_decreases(80 - x)' % (W, W, W, W),
+               '__CPROVER_loop_invariant(g_t < x ==> (%s[g_t] == g_w0 && %s[g_t - 3] == g_wa && %s[g_t - 8] == g_wb && %s[g_t - 14] == g_wc && %s[g_t - 16] == g_wd))\n'
+               '__CPROVER_loop_invariant(g_t < x ==> g_w0 == C10_SHA1_WV(g_wa, g_wb, g_wc, g_wd))\n'
+               '__CPROVER_decreases(80 - x)' % (W, W, W, W, W, W, W),
             3: '__CPROVER_assigns(x, a, b, c, d, e, __CPROVER_object_whole(g_v), g_T1, g_r)\n'
                '__CPROVER_loop_invariant(x <= 80 && g_r == x)\n'
                '__CPROVER_loop_invariant(a == g_v[0] && b == g_v[1] && c == g_v[2] && d == g_v[3] && e == g_v[4])\n'
@@ -199,8 +204,11 @@ def block_rules(name):
     W = 'w'
     rules = [
         at_start(block_prefix('data', 8, True)),
+        # schedule word g_t (see SHA1), FIPS 180-4 6.2.2 step 1
+        LoopGhost(2, 'if (x == g_t) { g_wa = w[x - 2]; g_wb = w[x - 7]; g_wc = w[x - 15]; g_wd = w[x - 16]; '
+                     'g_w0 = C10_SHA256_WV(g_wa, g_wb, g_wc, g_wd); }'),
         # FIPS 180-4 6.2.2 step 3 for t = g_r
-        LoopGhost(4, 'g_T1 = C10_SHA256_T1(g_v[4], g_v[5], g_v[6], g_v[7], C10_SHA256_K[g_r], w[g_r]); '
+        LoopGhost(4, 'g_T1 = C10_SHA256_T1(g_v[4], g_v[5], g_v[6], g_v[7], C10_SHA256_K[g_r], w[x]); '
                      'g_T2 = C10_SHA256_T2(g_v[0], g_v[1], g_v[2]); g_v[7] = g_v[6]; g_v[6] = g_v[5]; g_v[5] = g_v[4]; '
                      'g_v[4] = g_v[3] + g_T1; g_v[3] = g_v[2]; g_v[2] = g_v[1]; g_v[1] = g_v[0]; g_v[0] = g_T1 + g_T2; g_r++;'),
         # step 4 for word g_r2
@@ -213,10 +221,11 @@ def block_rules(name):
            '__CPROVER_loop_invariant(g_j < x ==> w[g_j] == g_Mj)\n'
            '__CPROVER_loop_invariant(g_j >= x ==> w[g_j] == C10_LE32_AT(data, g_j))\n'
            '__CPROVER_decreases(16 - x)',
-        2: '__CPROVER_assigns(x, __CPROVER_object_whole(w))\n'
+        2: '__CPROVER_assigns(x, __CPROVER_object_whole(w), g_w0, g_wa, g_wb, g_wc, g_wd)\n'
            '__CPROVER_loop_invariant(16 <= x && x <= 64)\n'
            '__CPROVER_loop_invariant(w[g_j] == g_Mj)\n'
-           '__CPROVER_loop_invariant(g_t < x ==> w[g_t] == C10_SHA256_W(w, g_t))\n'
+           '__CPROVER_loop_invariant(g_t < x ==> (w[g_t] == g_w0 && w[g_t - 2] == g_wa && w[g_t - 7] == g_wb && w[g_t - 15] == g_wc && w[g_t - 16] == g_wd))\n'
+           '__CPROVER_loop_invariant(g_t < x ==> g_w0 == C10_SHA256_WV(g_wa, g_wb, g_wc, g_wd))\n'
            '__CPROVER_decreases(64 - x)',
         3: '__CPROVER_assigns(x, __CPROVER_object_whole(z))\n'
            '__CPROVER_loop_invariant(x <= 8)\n'
@@ -279,15 +288,15 @@ def md_unit(ctx, src, name):
     ]
     cloops = {
         1: '__CPROVER_assigns(processed_offset, __CPROVER_object_whole(self), %s)\n'
-           '__CPROVER_loop_invariant(processed_offset <= size && processed_offset == C10_MD_TOTAL(g_nblk))\n'
+           '__CPROVER_loop_invariant(processed_offset <= size && (processed_offset & 63) == 0 && g_nblk == (processed_offset >> 6))\n'
            '__CPROVER_loop_invariant(C10_STATE_EQ(self))\n'
            '__CPROVER_loop_invariant(g_k < processed_offset ==> g_seen == ((const uint8_t*)data)[g_k])\n'
            '__CPROVER_decreases(size - processed_offset)' % GH_ASSIGNS,
         2: '__CPROVER_assigns(z, __CPROVER_object_whole(self), %s)\n'
-           '__CPROVER_loop_invariant(z <= w.size && (z & 63) == 0 && C10_MD_TOTAL(g_nblk) == processed_offset + z)\n'
+           '__CPROVER_loop_invariant(z <= w.size && (z & 63) == 0 && g_nblk == ((processed_offset + z) >> 6))\n'
            '__CPROVER_loop_invariant(C10_STATE_EQ(self))\n'
            '__CPROVER_loop_invariant(g_k < processed_offset ==> g_seen == ((const uint8_t*)data)[g_k])\n'
-           '__CPROVER_loop_invariant((g_k >= processed_offset && g_k < processed_offset + z) ==> g_seen == w.data[g_wi])\n'
+           '__CPROVER_loop_invariant((g_k >= processed_offset && g_k < processed_offset + z) ==> g_seen == C10_WAT(&w))\n'
            '__CPROVER_decreases(w.size - z)' % GH_ASSIGNS,
     }
     u.function(src, HCC, A['ctor'], new_header='void %s_ctor(%s* self, const void* data, size_t size)' % (name, name),
